@@ -836,6 +836,10 @@ impl StateMachine for RocksDBStateMachine {
                         let lease =
                             self.lease.as_ref().expect("lease always initialized by NodeBuilder");
                         lease.register(key.clone(), *ttl);
+                    } else if let Some(ref lease) = self.lease {
+                        // A write without TTL makes the key permanent: an expiry registered
+                        // by an earlier write must not delete the new value.
+                        lease.unregister(key);
                     }
 
                     results.push(ApplyResult::success(entry.index));
@@ -867,6 +871,10 @@ impl StateMachine for RocksDBStateMachine {
 
                     if cas_success {
                         batch.put_cf(&cf, key, new_value);
+                        // CAS writes carry no TTL: the swapped-in value is permanent.
+                        if let Some(ref lease) = self.lease {
+                            lease.unregister(key);
+                        }
                     }
 
                     results.push(if cas_success {
